@@ -231,6 +231,12 @@ func (g sgen) source(i int, used map[string]bool, files map[string]bool) Source 
 					v[j].V = rapid.SampledFrom(poolRandFuncs).Draw(g.t, l+".randfunc")
 				}
 			}
+			for j := range v {
+				if !IsRandFuncValue(v[j].V) && g.chance(l+".typed?", 12) {
+					v[j].V = rapid.SampledFrom([]string{"8090", "0", "-1", "100", "true", "false"}).Draw(g.t, l+".typed")
+					s.TypedKeys = append(s.TypedKeys, v[j].K)
+				}
+			}
 			for _, e := range v {
 				if IsRandFuncValue(e.V) {
 					s.RandKeys = append(s.RandKeys, e.K)
